@@ -315,6 +315,22 @@ impl Rw {
                 }
             }
         }
+        // Path::new(X).extension().and_then(OsStr::to_str)
+        if name == "and_then" && m.args.len() == 1 {
+            if let Some(ext) = Self::is_method(recv, "extension", 0) {
+                if let Expr::Call(c) = &*ext.receiver {
+                    if let Expr::Path(pp) = &*c.func {
+                        let ps = pp.path.segments.iter().map(|s| s.ident.to_string()).collect::<Vec<_>>().join("::");
+                        let arg_ok = if let Expr::Path(ap) = &m.args[0] { ap.path.segments.iter().map(|s| s.ident.to_string()).collect::<Vec<_>>().join("::") == "OsStr::to_str" } else { false };
+                        if ps == "Path::new" && c.args.len() == 1 && arg_ok {
+                            let x = &c.args[0];
+                            self.log("R-SHIM", sp, "Path::new(x).extension().and_then(OsStr::to_str) -> rws_path_extension(x)");
+                            return syn::parse2(quote! { rws_path_extension(#x) }).ok();
+                        }
+                    }
+                }
+            }
+        }
         // X.matches(p).count()
         if name == "count" && m.args.is_empty() {
             if let Some(mm) = Self::is_method(recv, "matches", 1) {
